@@ -511,19 +511,138 @@ agraph (float[2] x{cond_in}) => (float[2] y)
 }}"""
 
 
+def fam_hardswish(rng: Rng) -> str:
+    """HardSwish / HardSigmoid sub-graphs (_fuse_hardswish.py): Add 3, Clip 0..6, (Mul x,) Div 6 — with members that miss
+    each constant, and the HardSigmoid(alpha=1/6, beta=0.5) * x form."""
+    v = _variant(rng, [("swish", 3), ("sigmoid", 2), ("from_hardsigmoid", 2), ("bad_bias", 1), ("bad_max", 1), ("bad_div", 1), ("bad_alpha", 1)])
+    bias, cmax, div = ("2.5" if v == "bad_bias" else "3.0"), ("5.0" if v == "bad_max" else "6.0"), ("4.0" if v == "bad_div" else "6.0")
+    if v in ("from_hardsigmoid", "bad_alpha"):
+        alpha = "0.2" if v == "bad_alpha" else "0.16666667"
+        return f"""<ir_version: 10, opset_import: ["" : 20]>
+agraph (float[2,4] x) => (float[2,4] y)
+{{
+   h = HardSigmoid <alpha = {alpha}, beta = 0.5> (x)
+   y = {rng.choice(["Mul(h, x)", "Mul(x, h)"])}
+}}"""
+    mul = "" if v == "sigmoid" else "m = Mul(c, x)\n   "
+    last_in = "c" if v == "sigmoid" else "m"
+    return f"""<ir_version: 10, opset_import: ["" : 20]>
+agraph (float[2,4] x) => (float[2,4] y)
+<float three = {{{bias}}}, float zero = {{0.0}}, float six = {{{cmax}}}, float div = {{{div}}}>
+{{
+   a = Add(x, three)
+   c = Clip(a, zero, six)
+   {mul}y = Div({last_in}, div)
+}}"""
+
+
+def fam_conv_affine(rng: Rng) -> str:
+    """Conv followed by scalar Mul + Add, or scalar Mul + Add followed by a 1x1 Conv (_fuse_conv_affine.py)."""
+    v = _variant(rng, [("conv_then_affine", 3), ("affine_then_conv", 3), ("nonscalar_scale", 1), ("no_bias", 1), ("dynamic_scale", 1)])
+    sc, off = rng.choice(["2.0", "0.5", "-1.5"]), rng.choice(["1.0", "0.25"])
+    scale_decl = "float[2] scale = {2.0, 3.0}" if v == "nonscalar_scale" else f"float scale = {{{sc}}}"
+    inits = [f"float[2,2,1,1] W = {{{_floats(rng, 4)}}}", scale_decl, f"float offset = {{{off}}}"]
+    inputs = ["float[1,2,4,4] x"]
+    conv_in = "x, W, B"
+    if v == "no_bias":
+        conv_in = "x, W"
+    else:
+        inits.append(f"float[2] B = {{{_floats(rng, 2)}}}")
+    if v == "dynamic_scale":
+        inits = [i for i in inits if not i.startswith("float scale")]
+        inputs.append("float scale")
+    if v == "affine_then_conv":
+        body = f"m = Mul(x, scale)\n   a = Add(m, offset)\n   y = Conv <kernel_shape = [1, 1], pads = [0, 0, 0, 0]> (a, W, B)"
+    else:
+        body = f"c = Conv <kernel_shape = [1, 1]> ({conv_in})\n   m = Mul(c, scale)\n   y = Add(m, offset)"
+    return f"""<ir_version: 10, opset_import: ["" : 20]>
+agraph ({", ".join(inputs)}) => (float[1,2,?,?] y)
+<{", ".join(inits)}>
+{{
+   {body}
+}}"""
+
+
+def fam_expand_binary(rng: Rng) -> str:
+    """Expand feeding a broadcasting binary op (_remove_expand_before_binary_op.py): redundant and necessary expands."""
+    v = _variant(rng, [("redundant", 3), ("needed", 2), ("second_operand", 2), ("symbolic", 1), ("dynamic_shape", 1)])
+    op = rng.choice(["Add", "Mul", "Sub", "Div", "Greater"])
+    out_t = "bool" if op == "Greater" else "float"
+    xdecl, ydecl, shp = "float[1,4] x", "float[3,4] y", "3, 4"
+    if v == "needed":
+        ydecl = "float[1,4] y"
+    if v == "symbolic":
+        xdecl, ydecl = "float[1,N] x", "float[3,N] y"
+    shape_init = "" if v == "dynamic_shape" else f"<int64[2] shape = {{{shp}}}>"
+    extra_in = ", int64[2] shape" if v == "dynamic_shape" else ""
+    args = "y, e" if v == "second_operand" else "e, y"
+    return f"""<ir_version: 10, opset_import: ["" : 20]>
+agraph ({xdecl}, {ydecl}{extra_in}) => ({out_t}[?,?] z)
+{shape_init}
+{{
+   e = Expand(x, shape)
+   z = {op}({args})
+}}"""
+
+
+def fam_reshape_matmul(rng: Rng) -> str:
+    """Reshape -> MatMul -> Reshape where the reshapes only add/remove broadcast dims (_broadcast_to_matmul.py)."""
+    v = _variant(rng, [("two_reshapes", 3), ("one_reshape", 2), ("wrong_final", 1), ("symbolic", 1)])
+    a_decl = "float[2,3,4] a" if v != "symbolic" else "float[B,3,4] a"
+    final = "2, 3, 5" if v != "wrong_final" else "6, 5"
+    if v == "one_reshape":
+        return f"""<ir_version: 10, opset_import: ["" : 20]>
+agraph ({a_decl}, float[4,5] b) => (float[?,?,?] y)
+<int64[3] sa = {{2, 3, 4}}, int64[3] sc = {{{final}}}>
+{{
+   ra = Reshape(a, sa)
+   m = MatMul(ra, b)
+   y = Reshape(m, sc)
+}}"""
+    return f"""<ir_version: 10, opset_import: ["" : 20]>
+agraph ({a_decl}, float[4,5] b) => (float[?,?,?] y)
+<int64[3] sa = {{2, 3, 4}}, int64[3] sb = {{1, 4, 5}}, int64[{len(final.split(","))}] sc = {{{final}}}>
+{{
+   ra = Reshape(a, sa)
+   rb = Reshape(b, sb)
+   m = MatMul(ra, rb)
+   y = Reshape(m, sc)
+}}"""
+
+
+def fam_scatter_nd(rng: Rng) -> str:
+    """ScatterND that overwrites the whole first dimension (_redundant_scatter_nd.py) and members that do not."""
+    v = _variant(rng, [("static_full", 3), ("static_partial", 2), ("shape_mismatch", 1), ("dynamic_indices", 1)])
+    n = rng.choice([2, 3])
+    idx = ", ".join(str(i) for i in range(n)) if v != "static_partial" else ", ".join(str(i) for i in range(n - 1))
+    nidx = n if v != "static_partial" else n - 1
+    upd = f"float[{n},4] updates" if v != "shape_mismatch" else f"float[{n},1] updates"
+    upd = upd if v != "static_partial" else f"float[{nidx},4] updates"
+    idx_init = "" if v == "dynamic_indices" else f"<int64[{nidx},1] indices = {{{idx}}}>"
+    idx_in = f", int64[{n},1] indices" if v == "dynamic_indices" else ""
+    return f"""<ir_version: 10, opset_import: ["" : 20]>
+agraph (float[{n},4] data, {upd}{idx_in}) => (float[{n},4] y)
+{idx_init}
+{{
+   s = ScatterND(data, indices, updates)
+   y = Relu(s)
+}}"""
+
+
 FAMILIES = {
     "pad_conv": fam_pad_conv, "pad_conv_tail": fam_pad_conv_fail_tail, "reshape_reshape": fam_reshape_reshape,
     "flatten": fam_flatten, "cast_cast": fam_cast_cast, "transpose": fam_transpose, "minmax": fam_minmax,
     "clip_relu": fam_clip_relu, "unsqueeze": fam_unsqueeze, "bn_conv": fam_batchnorm_conv, "bn_gemm": fam_batchnorm_gemm,
     "matmul_add": fam_matmul_add, "slice": fam_slice, "expand": fam_expand, "cast_cos": fam_cast_constant_of_shape,
     "mat_reshape": fam_materialize_reshape, "fold_chain": fam_fold_chain,
-    "rms_norm": fam_rms_norm, "layer_norm": fam_layer_norm, "gelu": fam_gelu, "slice_split": fam_slice_split, "const_if": fam_const_if,
+    "rms_norm": fam_rms_norm, "layer_norm": fam_layer_norm, "gelu": fam_gelu, "slice_split": fam_slice_split, "const_if": fam_const_if, "hardswish": fam_hardswish, "conv_affine": fam_conv_affine,
+    "expand_binary": fam_expand_binary, "reshape_matmul": fam_reshape_matmul, "scatter_nd": fam_scatter_nd,
 }
 
 
 # families whose members walk through declared variants: a batch takes one member per variant (capped), so that every
 # special path of the rule's check() is in every batch; other families vary only in parameters and get 3 members
-N_VARIANTS = {"rms_norm": 4, "pad_conv": 12, "reshape_reshape": 8, "fold_chain": 9, "slice_split": 7, "const_if": 7}
+N_VARIANTS = {"hardswish": 7, "conv_affine": 5, "expand_binary": 5, "reshape_matmul": 4, "scatter_nd": 4, "rms_norm": 4, "pad_conv": 12, "reshape_reshape": 8, "fold_chain": 9, "slice_split": 7, "const_if": 7}
 
 
 def members_per_batch(family: str, default: int, cap: int = 9) -> int:
